@@ -17,10 +17,10 @@ the implementation side of "never raises" is observed by the correspondence chec
 theorem eq_bool (a b : EVal) : eq a b = true ∨ eq a b = false := by
   cases eq a b <;> simp
 
-/-- reflexivity, NaN at any depth included.  The only hypothesis: the index / column *labels* of
-pandas objects are NaN-free (`pd.Index == pd.Index` is not NaN-aware; cells may hold any NaN). -/
-theorem eq_refl (a : EVal) (h : a.labelsOk = true) : eq a a = true :=
-  eqN_refl _ (norm_labelsOk a h)
+/-- reflexivity, NaN at any depth included - in cells and (since fix C14-F4: axis labels are compared
+one by one with `eq`) also in the index / column labels of pandas objects.  No hypothesis. -/
+theorem eq_refl (a : EVal) : eq a a = true :=
+  eqN_refl _
 
 theorem eq_symm (a b : EVal) : eq a b = eq b a := eqN_symm _ _
 
@@ -67,9 +67,9 @@ theorem eq_frame (i j c d : List Cell) (xs ys : List EVal) :
     eq (.frame i c xs) (.frame j d ys) = (idxEq i j && idxEq c d && all2 eq xs ys) := by
   simp only [eq, EVal.norm, eqN, eqArr_normList]; rfl
 
-/-- matching labels: same number of labels, pairwise `==` -/
+/-- matching labels: same number of labels, pairwise `eq` (`==`, or both NaN) -/
 theorem idxEq_spec (i j : List Cell) (h : idxEq i j = true) :
-    i.length = j.length ∧ ∀ k (h1 : k < i.length) (h2 : k < j.length), Cell.pyEq i[k] j[k] = true := by
+    i.length = j.length ∧ ∀ k (h1 : k < i.length) (h2 : k < j.length), cellEq i[k] j[k] = true := by
   induction i generalizing j with
   | nil => cases j <;> simp_all [idxEq, all2]
   | cons x xs ih =>
@@ -129,9 +129,9 @@ theorem eq_agrees_pyeq_needs_keysOk :
 /-! ### in_ -/
 
 /-- membership built on `eq`: an element of the sequence is found … -/
-theorem in_of_mem (x : EVal) (s : List EVal) (hx : x.labelsOk = true) (h : x ∈ s) : in_ x s = true := by
+theorem in_of_mem (x : EVal) (s : List EVal) (h : x ∈ s) : in_ x s = true := by
   simp only [in_, List.any_eq_true]
-  exact ⟨x, h, eq_refl x hx⟩
+  exact ⟨x, h, eq_refl x⟩
 
 /-- … `in_` is exactly "some element is `eq`" and respects `eq` on the probe -/
 theorem in_iff (x : EVal) (s : List EVal) : in_ x s = true ↔ ∃ y ∈ s, eq x y = true := by
@@ -152,8 +152,7 @@ private def f (q : Int) : EVal := .cell (.flt q)
 -- NaN at depth, int == float, dict order
 example : eq (.list [i 1, .tuple [nan, .dict 0 [("b", nan), ("a", f 8)]]])
     (.list [f 4, .tuple [nan, .dict 0 [("a", i 2), ("b", nan)]]]) = true := by decide
--- the hypotheses of eq_refl / eq_trans / eq_type_strict are satisfiable on non-trivial values
-example : (EVal.frame [.int 0, .int 1] [.str "a"] [nan, i 2]).labelsOk = true := by decide
+-- the hypotheses of eq_trans / eq_type_strict are satisfiable on non-trivial values
 example : eq (.arr [2] [i 1, nan]) (.arr [2] [f 4, nan]) = true ∧
     eq (.arr [2] [f 4, nan]) (.arr [2] [.cell (.bool true), nan]) = true := by decide
 example : (EVal.list [i 1]).kind ≠ (EVal.tuple [i 1]).kind := by decide
@@ -171,7 +170,8 @@ private def d1 : EVal := .dict 0 [("b", .list [i 1, .dict 0 [("y", f 8), ("x", .
 private def d2 : EVal := .dict 0 [("a", .tuple []), ("b", .list [f 4, .dict 0 [("x", .date 3), ("y", i 2)]])]
 example : d1.plain = true ∧ d2.plain = true ∧ d1.keysOk = true ∧ d2.keysOk = true := by decide
 example : eq d1 d2 = true ∧ pyEqV d1 d2 = true := by decide
--- a NaN label breaks reflexivity (in the model as in pandas): the hypothesis of eq_refl is needed
-example : eq (.series [.nan] [i 1]) (.series [.nan] [i 1]) = false := by decide
+-- NaN labels are labels like any other; a string label is not the datetime it spells
+example : eq (.series [.nan] [i 1]) (.series [.nan] [i 1]) = true := by decide
+example : eq (.series [.str "2020-01-01"] [i 1]) (.series [.dt 63713433600000000] [i 1]) = false := by decide
 
 end Pyg.Props.C14
